@@ -1,4 +1,5 @@
 import Bec2Verif.Lemmas.Frame
+import Bec2Verif.Props.C16
 /-!
 # C08 — AES auth-block container: exact framing, exact inverse, errors on wrong marker/CRC
 -/
@@ -41,6 +42,10 @@ theorem unwrap_wrap (C : Crypto) (hC : CryptoInv C) (key p c : Bytes) (h : wrap 
 theorem unwrap_wrap_adapter (B : BlockCipher) (hB : BlockInv B) (key p c : Bytes)
     (h : wrap (Adapter.crypto B) key p = .ok c) : unwrap (Adapter.crypto B) key c = .ok p :=
   Bec2Verif.unwrap_wrap _ (adapter_cryptoInv B hB) key p c h
+
+/-- … and, the hypothesis discharged (C16 `aes_blockInv`), for the bundled AES plug-in outright -/
+theorem unwrap_wrap_aes (key p c : Bytes) (h : wrap aesCrypto key p = .ok c) : unwrap aesCrypto key c = .ok p :=
+  unwrap_wrap_adapter aesCipher Props.C16.aes_blockInv key p c h
 
 /-- a frame whose first byte is not `'B'` is reported as the BEC2 format error -/
 theorem bad_marker_rejected (n : Nat) (m : UInt8) (rest : Bytes) (h : m ≠ 0x42) :
